@@ -32,8 +32,17 @@ SeqCmp(a, b) == IF a = <<>> THEN (IF b = <<>> THEN 0 ELSE -1)
                 ELSE SeqCmp(Tail(a), Tail(b))
 
 (* total comparison of two non-NULL values of comparable classes: -1, 0, 1 *)
+\* an opaque double [t |-> "x", fl |-> floor(2v)] is not a multiple of 1/2, so it lies strictly between fl and fl + 1 (in
+\* halves): that orders it against every exact number and against opaque values with another fl; 3 = order unknown
+IsOpq(x) == x.t = "x"
+HasFl(x) == "fl" \in DOMAIN x
 Cmp3(a, b) ==
-  IF IsNum(a) /\ IsNum(b) THEN (IF Twice(a) < Twice(b) THEN -1 ELSE IF Twice(a) = Twice(b) THEN 0 ELSE 1)
+  IF (IsOpq(a) /\ (IsOpq(b) \/ IsNum(b))) \/ (IsOpq(b) /\ IsNum(a)) THEN
+     (IF (IsOpq(a) /\ ~HasFl(a)) \/ (IsOpq(b) /\ ~HasFl(b)) THEN 3
+      ELSE IF IsOpq(a) /\ IsOpq(b) THEN (IF a.fl < b.fl THEN -1 ELSE IF a.fl > b.fl THEN 1 ELSE 3)
+      ELSE IF IsOpq(a) THEN (IF a.fl < Twice(b) THEN -1 ELSE 1)
+      ELSE (IF Twice(a) <= b.fl THEN -1 ELSE 1))
+  ELSE IF IsNum(a) /\ IsNum(b) THEN (IF Twice(a) < Twice(b) THEN -1 ELSE IF Twice(a) = Twice(b) THEN 0 ELSE 1)
   ELSE IF a.t = "s" /\ b.t = "s" THEN SeqCmp(a.v, b.v)
   ELSE IF a.t = "b" /\ b.t = "b" THEN (IF a.v = b.v THEN 0 ELSE IF b.v THEN -1 ELSE 1)
   ELSE IF a = b THEN 0 ELSE 2                              \* incomparable classes: not equal, no order
@@ -101,6 +110,6 @@ Eval(e, row) ==
                           ELSE B(LikeM(a.v, p.v) # e.neg)
 
 (* order used by ORDER BY / MIN / MAX: NULL is larger than every value *)
-OrdLeq(a, b) == IF IsNull(b) THEN TRUE ELSE IF IsNull(a) THEN FALSE ELSE Cmp3(a, b) \in {-1, 0}
+OrdLeq(a, b) == IF IsNull(b) THEN TRUE ELSE IF IsNull(a) THEN FALSE ELSE Cmp3(a, b) \in {-1, 0, 3}
 OrdEq(a, b)  == IF IsNull(a) \/ IsNull(b) THEN IsNull(a) /\ IsNull(b) ELSE Cmp3(a, b) = 0
 =============================================================================
